@@ -58,7 +58,9 @@ def build(work, tier):
     context = b.context()
     inc = [QT]
     # ---------------------------------------------------------------- decode (callees by contract)
-    callee_protos = b.prototype(t_da) + b.prototype(t_sbl)     # the very contracts these functions are verified against below
+    # the very contracts these functions are verified against below; of decodeAddress's contract decode needs (and gets) only
+    # the two stream-framing guarantees, not the address-value clauses (which made this proof run out of memory)
+    callee_protos = b.prototype(t_da, keep_ensures=2) + b.prototype(t_sbl)
     c = '#include "bytes.h"\n#include "misc.h"\n' + context + '\n' + rec + '\n' + rd('ghost.h') + rd('da_spec.h') + callee_protos + rd('callees_decode.h') + t_decode + '''
 void h_decode(void) { QXmppStunMessage *self; const QByteArray *buffer; const QByteArray *key; QStringList *errors; QXmppStunMessage_decode(self, buffer, key, errors); }
 '''
